@@ -22,9 +22,9 @@ func ZzC07() {
 		if zz.Param("STALE", 0) == 1 && zz.Bool("op.head") {
 			// the head is (also) learned through Head(), concurrently with gossip and the sync loop
 			go func() {
-				if _, err := env.s.Head(ctx); err == nil {
-					env.errSinceHead = env.errSinceHead && false
-				}
+				// whether this call learns a new head is decided where the head is handed out (the Head getter
+				// of the environment clears errSinceHead when it returns a head above everything accepted so far)
+				_, _ = env.s.Head(ctx)
 			}()
 			zz.Reach("head-call")
 			continue
